@@ -447,10 +447,12 @@ def check_property(prop, tier, seed):
             vac_problems.append('%s: no return reachable' % short_fn(g['func']))
         dead = sum(1 for x in rets if x == 'unsat')
         sp_ = ses.resolver(g['func'].split('@')[0]) if not g['func'].startswith('lemma.') else None
-        allowed = int((sp_.opts.get('deadreturns') or ['0'])[0]) if sp_ else 0
+        allowed = int((sp_.opts.get('deadreturns') or ['0'])[0].split()[0]) if sp_ else 0
         if dead > allowed:
             vac_problems.append('%s: %d return(s) proved unreachable (expected %d): the context may be contradictory' % (short_fn(g['func']), dead, allowed))
-        if fo == 0:
+        if fo == 0 and (sp_ is None or prop in getattr(sp_, 'props', ())):
+            # (helpers that cannot fail - a conversion, a struct literal - legitimately have none; a function
+            #  that claims the property must have something to prove)
             vac_problems.append('%s: zero obligations generated' % short_fn(g['func']))
         missing = [n for n in lock.get(short_fn(g['func']), []) if n not in names]
         for n in missing:
